@@ -399,93 +399,4 @@ Section Proofs.
     mid_spec (whole E fuel) total s inp.
   Proof.
     induction fuel as [|fuel IH]; intros total s inp Hinv Hm Hbound Hfuel; unfold mid_spec.
-    - destruct inp; [|cbn in Hfuel; lia]. exists 0%nat, s. cbn.
-      rewrite N.add_0_r. repeat split; try assumption; lia.
-    - cbn [whole].
-      destruct (16 <=? N.of_nat (length inp)) eqn:Hge.
-      + apply N.leb_le in Hge.
-        rewrite (generate_ok total s Hinv Hm). cbn [bind].
-        rewrite (use_spec _ inp _ 16 0 (total / 16)) by (cbn [buf]; try reflexivity; lia).
-        cbn [bytectr buf pblk]. change (N.to_nat 16) with 16%nat.
-        replace (16 * (total / 16) + 0) with total by lia.
-        assert (Hinv2 := after_block total 16 Hm ltac:(lia) ltac:(lia)).
-        replace (N.of_nat (length inp) - 16) with (N.of_nat (length (skipn 16 inp)))
-          by (rewrite skipn_length; lia).
-        destruct (IH (total + 16) _ (skipn 16 inp) Hinv2) as (k & s1 & Hw & Hk & Hrest & Hinv3 & Hm3).
-        { lia. } { rewrite skipn_length. lia. } { rewrite skipn_length. lia. }
-        rewrite Hw. cbn [bind].
-        rewrite skipn_length in Hk, Hrest.
-        exists (16 + k)%nat, s1.
-        split.
-        * rewrite firstn_plus, skipn_plus, ks_range_app.
-          rewrite xor_list_app by (rewrite firstn_length, ks_range_length; lia).
-          change (N.of_nat 16) with 16.
-          do 3 f_equal. rewrite skipn_length. lia.
-        * replace (total + N.of_nat (16 + k)) with (total + 16 + N.of_nat k) by lia.
-          repeat split; try assumption; lia.
-      + apply N.leb_gt in Hge. exists 0%nat, s. cbn [firstn skipn xor_list N.of_nat].
-        rewrite N.sub_0_r, N.add_0_r. repeat split; try assumption; lia.
-  Qed.
-
-  (* ---------------------------------------------------------------- post_wholeblock *)
-  Lemma post_whole_spec total s inp :
-    ctr_inv total s -> total mod 16 = 0 -> (length inp < 16)%nat ->
-    total + N.of_nat (length inp) < two64 ->
-    exists s1, post_whole E s inp (N.of_nat (length inp)) =
-                 Ok (s1, xor_list inp (ks_range total (length inp))) /\
-               ctr_inv (total + N.of_nat (length inp)) s1.
-  Proof.
-    intros Hinv Hm Hlen Hbound. unfold post_whole.
-    destruct (0 <? N.of_nat (length inp)) eqn:Hpos.
-    - apply N.ltb_lt in Hpos.
-      rewrite (generate_ok total s Hinv Hm). cbn [bind].
-      rewrite (use_spec _ inp _ _ 0 (total / 16)) by (cbn [buf]; try reflexivity; lia).
-      cbn [bytectr buf pblk]. rewrite Nat2N.id, firstn_all.
-      replace (16 * (total / 16) + 0) with total by lia.
-      eexists. split; [reflexivity|]. apply after_block; lia.
-    - apply N.ltb_ge in Hpos. destruct inp; [|cbn in Hpos; lia].
-      exists s. cbn. rewrite N.add_0_r. split; [reflexivity | exact Hinv].
-  Qed.
-
-  (* ---------------------------------------------------------------- a stream call, any middle step *)
-  Definition stream_with (W : st -> list N -> N -> res (st * list N * list N * N))
-             (s : st) (inp : list N) : res (st * list N) :=
-    let buflen := N.of_nat (length inp) in
-    let '(s1, o1, rest, bl, done) := pre_whole s inp buflen in
-    if done then Ok (s1, o1) else
-    bind (W s1 rest bl) (fun '(s2, o2, rest2, bl2) =>
-    bind (post_whole E s2 rest2 bl2) (fun '(s3, o3) =>
-    Ok (s3, o1 ++ o2 ++ o3))).
-
-  Lemma stream_with_spec W total s inp :
-    (forall t s' inp', ctr_inv t s' -> t mod 16 = 0 -> t + N.of_nat (length inp') < two64 ->
-                       (length inp' <= length inp)%nat -> mid_spec W t s' inp') ->
-    ctr_inv total s -> total + N.of_nat (length inp) < two64 ->
-    exists s', stream_with W s inp = Ok (s', xor_list inp (ks_range total (length inp))) /\
-               ctr_inv (total + N.of_nat (length inp)) s'.
-  Proof.
-    intros HW Hinv Hbound. unfold stream_with.
-    destruct (pre_whole_spec total s inp Hinv Hbound) as (k1 & s1 & done & Hpre & Hk1 & Hinv1 & Hd & Hnd).
-    rewrite Hpre. destruct done.
-    - specialize (Hd eq_refl). subst k1. rewrite firstn_all. exists s1. split; [reflexivity | exact Hinv1].
-    - specialize (Hnd eq_refl).
-      set (rest := skipn k1 inp).
-      assert (Hrl : length rest = (length inp - k1)%nat) by (subst rest; apply skipn_length).
-      replace (N.of_nat (length inp) - N.of_nat k1) with (N.of_nat (length rest)) by lia.
-      destruct (HW (total + N.of_nat k1) s1 rest Hinv1 Hnd) as (k2 & s2 & Hw & Hk2 & Hr2 & Hinv2 & Hm2);
-        [lia | lia |].
-      rewrite Hw. cbn [bind].
-      set (rest2 := skipn k2 rest).
-      assert (Hrl2 : length rest2 = (length rest - k2)%nat) by (subst rest2; apply skipn_length).
-      replace (N.of_nat (length rest) - N.of_nat k2) with (N.of_nat (length rest2)) by lia.
-      destruct (post_whole_spec (total + N.of_nat k1 + N.of_nat k2) s2 rest2 Hinv2 Hm2) as (s3 & Hpost & Hinv3);
-        [lia | lia |].
-      rewrite Hpost. cbn [bind].
-      exists s3. split.
-      + f_equal. f_equal.
-        rewrite <- (glue inp total k1 Hk1). f_equal. fold rest.
-        rewrite <- Hrl. rewrite <- (glue rest _ k2 Hk2). f_equal. fold rest2.
-        rewrite <- Hrl2. reflexivity.
-      + replace (total + N.of_nat (length inp)) with (total + N.of_nat k1 + N.of_nat k2 + N.of_nat (length rest2)) by lia.
-        exact Hinv3.
-  Qed.
+    - destruct inp; [|cbn in Hfuel; lia]. exists 0%nat, s. cbn. rewrite N.add_0_r. repeat split; try assumption. Show. 
